@@ -40,7 +40,12 @@ from typing import (
 
 from lxml import etree
 
-from _delb.exceptions import AmbiguousTreeError, InvalidCodePath, InvalidOperation
+from _delb.exceptions import (
+    AmbiguousTreeError,
+    InvalidCodePath,
+    InvalidOperation,
+    XPathEvaluationError,
+)
 from _delb.names import (
     GLOBAL_PREFIXES,
     XML_NAMESPACE,
@@ -2160,6 +2165,16 @@ class TagNode(_ElementWrappingNode, NodeBase):
                         "there can't be a second root."
                     )
                 assert isinstance(node_test, NameMatchTest)
+
+                for prefix in (
+                    node_test.prefix,
+                    *(x[0] for x in step._derived_attributes),
+                ):
+                    if prefix and prefix not in namespaces:
+                        raise XPathEvaluationError(
+                            f"The namespace prefix `{prefix}` is unknown in the "
+                            "evaluation context."
+                        )
 
                 new_node = new_tag_node(
                     local_name=node_test.local_name,
